@@ -165,12 +165,13 @@ def handleC01 (j : Json) : Json :=
   match parseLib j, field? j "script" with
   | some l, some sc =>
     let S := mkSem l
+    let covered := match parseExpr l sc with | some e => treeOK S e | none => false
     match eval l S sc with
     | .error e => jErr e
     | .ok o =>
       let c := cap o
       let modes := [1, 2, 4, 8].filter (fun m => checkMode c m)
-      jObj [("cap", jNat c), ("dom", jNat (dom o)), ("tgt", jNat (tgt o)), ("struct", structOf o),
+      jObj [("cap", jNat c), ("dom", jNat (dom o)), ("tgt", jNat (tgt o)), ("struct", structOf o), ("tree_sound_covers", Json.bool covered),
             ("mats", jObj (modes.map fun m => (toString m, jMat (den S o m))))]
   | _, _ => jErr "bad-args"
 
